@@ -233,7 +233,7 @@ func (r *rig) absState(k *tmi.VerifKState) M {
 		if k.SMOut.HasVRV {
 			smOut["vrv"] = M{"h": k.SMOut.H, "r": k.SMOut.R, "ver": k.SMOut.Ver}
 		} else {
-			smOut["vrv"] = "null"
+			smOut["vrv"] = M{"h": 0, "r": 0, "ver": 0}
 		}
 		if k.SMOut.HasJump {
 			smOut["jump"] = M{"h": k.SMOut.JH, "r": k.SMOut.JR}
@@ -345,19 +345,24 @@ func diff(path string, a, b any, out *[]string) {
 			diff(path+"."+k, xv, yv, out)
 		}
 	default:
-		if js(a) != js(b) {
+		if jsFull(a) != jsFull(b) {
 			*out = append(*out, fmt.Sprintf("%s: spec=%s real=%s", path, js(a), js(b)))
 		}
 	}
 }
 
+// js renders v for messages (truncated); jsFull renders it completely (used for comparisons).
 func js(v any) string {
-	b, _ := json.Marshal(v)
-	s := string(b)
+	s := jsFull(v)
 	if len(s) > 400 {
 		s = s[:400] + "..."
 	}
 	return s
+}
+
+func jsFull(v any) string {
+	b, _ := json.Marshal(v)
+	return string(b)
 }
 
 // ---------------------------------------------------------------- the oracle (independent of the engine)
@@ -713,6 +718,63 @@ func (o *oracle) evaluate(r *rig, k *tmi.VerifKState, prev *tmi.VerifKState, sit
 		}
 	}
 
+	// ---- restart resumes from what was durable (C10)
+	if site == "Restart" || site == "Boot" {
+		if o.haveNHR {
+			if k.V.Height < o.lastNHR[0] || (k.V.Height == o.lastNHR[0] && uint64(k.V.Round) < o.lastNHR[1]) {
+				*out = append(*out, viol{"C10", "NotBehindDurable", site, "voting",
+					fmt.Sprintf("after restart voting position is %d/%d but %d/%d was durably recorded", k.V.Height, k.V.Round, o.lastNHR[0], o.lastNHR[1])})
+			}
+			if k.C.Height < o.lastNHR[2] {
+				*out = append(*out, viol{"C10", "NotBehindDurable", site, "committing",
+					fmt.Sprintf("after restart committing height is %d but %d was durably recorded", k.C.Height, o.lastNHR[2])})
+			}
+		}
+		for _, e := range []struct {
+			n string
+			v *tmconsensus.VersionedRoundView
+		}{{"Voting", &k.V}, {"NextRound", &k.N}, {"Committing", &k.C}} {
+			if e.v.Height == 0 {
+				continue
+			}
+			phs, pv, pc, err := r.stores.cur.rs.LoadRoundState(ctx, e.v.Height, e.v.Round)
+			if err != nil {
+				continue
+			}
+			for _, ph := range phs {
+				found := false
+				for _, have := range e.v.ProposedHeaders {
+					if bytes.Equal(have.Header.Hash, ph.Header.Hash) {
+						found = true
+					}
+				}
+				if !found {
+					*out = append(*out, viol{"C10", "PersistedVotesReloaded", site, e.n + ":ph",
+						fmt.Sprintf("proposed header %s persisted for %d/%d is missing from the %s view after restart", w.Label(string(ph.Header.Hash)), e.v.Height, e.v.Round, e.n)})
+				}
+			}
+			chk := func(kind string, stored map[string][]gcrypto.SparseSignature, have map[string]gcrypto.CommonMessageSignatureProof) {
+				for hash, sigs := range stored {
+					hp := map[int]struct{}{}
+					if p, ok := have[hash]; ok {
+						for _, pos := range vc.Positions(p) {
+							hp[pos] = struct{}{}
+						}
+					}
+					for _, pos := range vc.SparsePositions(sigs, 0) {
+						if _, ok := hp[pos]; !ok {
+							*out = append(*out, viol{"C10", "PersistedVotesReloaded", site, e.n + ":" + kind,
+								fmt.Sprintf("%s of validator %d for %s persisted for %d/%d is missing from the %s view after restart", kind, pos, w.Label(hash), e.v.Height, e.v.Round, e.n)})
+							return
+						}
+					}
+				}
+			}
+			chk("prevote", pv.BlockSignatures, e.v.PrevoteProofs)
+			chk("precommit", pc.BlockSignatures, e.v.PrecommitProofs)
+		}
+	}
+
 	// ---- round changes need a cause (C06 consequence)
 	if prev != nil && k.V.Height == prev.V.Height && k.V.Round > prev.V.Round && site != "Replay" && site != "Restart" {
 		avail := k.V.VoteSummary.AvailablePower
@@ -760,6 +822,113 @@ func (o *oracle) checkCert(where string, h uint64, round uint32, hash string, si
 		*out = append(*out, viol{"C01", "CommitHasCert", site, where,
 			fmt.Sprintf("%s: header %s committed at height %d round %d with authentic precommit power %d of %d from the prescribed set %s (need %d); %d signatures held",
 				where, o.w.Label(hash), h, round, pw, tot, vsID, maj(tot), len(sigs))})
+	}
+}
+
+
+// ---------------------------------------------------------------- consumers of the two view channels (C11)
+
+type hrKey struct {
+	H uint64
+	R uint32
+}
+
+// consumer remembers, per (height, round), the last view a reader of one output channel received.
+type consumer struct {
+	name string
+	last map[hrKey]tmconsensus.VersionedRoundView
+}
+
+func newConsumer(name string) *consumer {
+	return &consumer{name: name, last: map[hrKey]tmconsensus.VersionedRoundView{}}
+}
+
+func signerSets(w *vc.World, p map[string]gcrypto.CommonMessageSignatureProof) map[string]map[int]struct{} {
+	out := map[string]map[int]struct{}{}
+	for hash, pr := range p {
+		m := map[int]struct{}{}
+		for _, pos := range vc.Positions(pr) {
+			m[pos] = struct{}{}
+		}
+		out[hash] = m
+	}
+	return out
+}
+
+func subsetSigners(a, b map[string]map[int]struct{}) bool {
+	for hash, sa := range a {
+		sb, ok := b[hash]
+		if !ok && len(sa) > 0 {
+			return false
+		}
+		for pos := range sa {
+			if _, ok := sb[pos]; !ok {
+				return false
+			}
+		}
+	}
+	return true
+}
+
+func sameSigners(a, b map[string]map[int]struct{}) bool {
+	return subsetSigners(a, b) && subsetSigners(b, a)
+}
+
+func phSet(phs []tmconsensus.ProposedHeader) map[string]struct{} {
+	out := map[string]struct{}{}
+	for _, ph := range phs {
+		out[string(ph.Header.Hash)] = struct{}{}
+	}
+	return out
+}
+
+// receive records a view handed to this consumer and checks that, for its (height, round),
+// versions strictly increase and proposals and votes only grow.
+func (c *consumer) receive(w *vc.World, v *tmconsensus.VersionedRoundView, strict bool, site string, out *[]viol) {
+	if v == nil || v.Height == 0 {
+		return
+	}
+	k := hrKey{v.Height, v.Round}
+	if prev, ok := c.last[k]; ok {
+		if v.Version < prev.Version || (strict && v.Version == prev.Version) {
+			*out = append(*out, viol{"C11", c.name + "VersionsIncrease", site, "version",
+				fmt.Sprintf("%s received version %d for %d/%d after version %d", c.name, v.Version, v.Height, v.Round, prev.Version)})
+		}
+		grew := true
+		for h := range phSet(prev.ProposedHeaders) {
+			if _, ok := phSet(v.ProposedHeaders)[h]; !ok {
+				grew = false
+			}
+		}
+		if !subsetSigners(signerSets(w, prev.PrevoteProofs), signerSets(w, v.PrevoteProofs)) ||
+			!subsetSigners(signerSets(w, prev.PrecommitProofs), signerSets(w, v.PrecommitProofs)) {
+			grew = false
+		}
+		if !grew {
+			*out = append(*out, viol{"C11", "ViewsOnlyGrow", site, c.name,
+				fmt.Sprintf("%s received a view of %d/%d (version %d) that lost proposals or votes held by version %d", c.name, v.Height, v.Round, v.Version, prev.Version)})
+		}
+	}
+	c.last[k] = v.Clone()
+}
+
+// current checks that what the consumer last received for (h,r) has the content of the mirror's view cur.
+func (c *consumer) current(w *vc.World, cur *tmconsensus.VersionedRoundView, site, what string, out *[]viol) {
+	if cur == nil || cur.Height == 0 {
+		return
+	}
+	got, ok := c.last[hrKey{cur.Height, cur.Round}]
+	if !ok {
+		*out = append(*out, viol{"C11", "EventuallyCurrent", site, c.name + ":" + what + ":never",
+			fmt.Sprintf("inputs stopped and nothing is pending, but %s never received the %s view %d/%d", c.name, what, cur.Height, cur.Round)})
+		return
+	}
+	if len(phSet(got.ProposedHeaders)) != len(phSet(cur.ProposedHeaders)) ||
+		!sameSigners(signerSets(w, got.PrevoteProofs), signerSets(w, cur.PrevoteProofs)) ||
+		!sameSigners(signerSets(w, got.PrecommitProofs), signerSets(w, cur.PrecommitProofs)) {
+		*out = append(*out, viol{"C11", "EventuallyCurrent", site, c.name + ":" + what + ":stale",
+			fmt.Sprintf("inputs stopped and nothing is pending, but %s last received version %d of the %s view %d/%d while the mirror holds version %d with other proposals or votes",
+				c.name, got.Version, what, cur.Height, cur.Round, cur.Version)})
 	}
 }
 
@@ -836,6 +1005,9 @@ func (rn *runner) runBehaviour(b behaviour) {
 	defer func() { r.stop() }()
 	var prevK *tmi.VerifKState
 	alive := false
+	smC, gsC := newConsumer("StateMachine"), newConsumer("Gossip")
+	// the rounds the mirror left by a nil commit, with the votes that justified it, until gossip saw them
+	var pendingNil []tmconsensus.VersionedRoundView
 
 	for i, st := range b.Steps {
 		rn.nSteps++
@@ -862,6 +1034,8 @@ func (rn *runner) runBehaviour(b behaviour) {
 					panicked = "NewMirror error: " + err.Error()
 				}
 				alive = false
+				rn.emitViol(b.ID, i, st.Op, viol{"C10", "RestartSucceeds", st.Op, classOfPanic(panicked),
+					"starting the mirror on the stores left by the crash failed: " + panicked})
 			} else {
 				alive = true
 			}
@@ -989,9 +1163,15 @@ func (rn *runner) runBehaviour(b behaviour) {
 			select {
 			case resp := <-re.Response:
 				if resp.IsVRV() {
-					gotRes = js(toAny([]any{"VRV", resp.VRV.Height, resp.VRV.Round, resp.VRV.Version}))
+					var cv []viol
+					vrv := resp.VRV
+					smC.receive(w, &vrv, true, "SMEnter", &cv)
+					for _, v := range cv {
+						rn.emitViol(b.ID, i, st.Op, v)
+					}
+					gotRes = jsFull(toAny([]any{"VRV", resp.VRV.Height, resp.VRV.Round, resp.VRV.Version}))
 				} else {
-					gotRes = js(toAny([]any{"CH", w.Label(string(resp.CH.Header.Hash))}))
+					gotRes = jsFull(toAny([]any{"CH", w.Label(string(resp.CH.Header.Hash))}))
 					// C01: a committed header handed to the state machine must carry a certificate
 					var vs []viol
 					o.checkCert("roundEntranceCH", resp.CH.Header.Height, resp.CH.Proof.Round, string(resp.CH.Header.Hash),
@@ -1035,11 +1215,29 @@ func (rn *runner) runBehaviour(b behaviour) {
 		case "RecvSM":
 			select {
 			case v := <-r.smViewOut:
+				{
+					var cv []viol
+					if v.VRV.Height != 0 {
+						vv := v.VRV
+						smC.receive(w, &vv, true, "RecvSM", &cv)
+					}
+					if v.JumpAheadRoundView != nil {
+						// a jump-ahead must carry the votes of a later round of the state machine's height
+						j := v.JumpAheadRoundView
+						if prevK != nil && (j.Height < prevK.SMReH || (j.Height == prevK.SMReH && j.Round <= prevK.SMReR)) {
+							cv = append(cv, viol{"C11", "StateMachineVersionsIncrease", "RecvSM", "jumpBackwards",
+								fmt.Sprintf("jump-ahead to %d/%d sent to a state machine at %d/%d", j.Height, j.Round, prevK.SMReH, prevK.SMReR)})
+						}
+					}
+					for _, x := range cv {
+						rn.emitViol(b.ID, i, st.Op, x)
+					}
+				}
 				m := M{"sentVersion": nil}
 				if v.VRV.Height != 0 {
 					m["vrv"] = M{"h": v.VRV.Height, "r": v.VRV.Round, "ver": v.VRV.Version}
 				} else {
-					m["vrv"] = "null"
+					m["vrv"] = M{"h": 0, "r": 0, "ver": 0}
 				}
 				if v.JumpAheadRoundView != nil {
 					m["jump"] = M{"h": v.JumpAheadRoundView.Height, "r": v.JumpAheadRoundView.Round}
@@ -1047,7 +1245,7 @@ func (rn *runner) runBehaviour(b behaviour) {
 					m["jump"] = M{"h": 0, "r": 0}
 				}
 				delete(m, "sentVersion")
-				gotRes = js(canon(toAny(m)))
+				gotRes = jsFull(canon(toAny(m)))
 				if !r.waitCount("SMSent", r.count("SMSent")-1, 5*time.Second) {
 				}
 			case <-time.After(10 * time.Second):
@@ -1058,7 +1256,32 @@ func (rn *runner) runBehaviour(b behaviour) {
 			select {
 			case u := <-r.gossipOut:
 				m := M{"C": u.Committing != nil, "V": u.Voting != nil, "N": u.NextRound != nil, "nilVoted": u.NilVotedRound != nil}
-				gotRes = js(canon(toAny(m)))
+				gotRes = jsFull(canon(toAny(m)))
+				// C11: per (height, round) versions increase and views grow
+				{
+					var cv []viol
+					gsC.receive(w, u.Committing, true, "RecvGossip", &cv)
+					gsC.receive(w, u.Voting, true, "RecvGossip", &cv)
+					gsC.receive(w, u.NextRound, true, "RecvGossip", &cv)
+					if u.NilVotedRound != nil {
+						gsC.receive(w, u.NilVotedRound, false, "RecvGossip", &cv)
+						rest := pendingNil[:0]
+						for _, pn := range pendingNil {
+							if pn.Height == u.NilVotedRound.Height && pn.Round == u.NilVotedRound.Round {
+								if !subsetSigners(signerSets(w, pn.PrecommitProofs), signerSets(w, u.NilVotedRound.PrecommitProofs)) {
+									cv = append(cv, viol{"C11", "ExitVotesDeliveredBeforeDrop", "RecvGossip", "nilVotedIncomplete",
+										fmt.Sprintf("NilVotedRound %d/%d handed to gossip lacks precommits that ended the round", pn.Height, pn.Round)})
+								}
+								continue
+							}
+							rest = append(rest, pn)
+						}
+						pendingNil = rest
+					}
+					for _, x := range cv {
+						rn.emitViol(b.ID, i, st.Op, x)
+					}
+				}
 				// C05: everything handed to gossip is authentic
 				var vs []viol
 				for _, e := range []struct {
@@ -1129,13 +1352,13 @@ func (rn *runner) runBehaviour(b behaviour) {
 				if m, ok := ea.(map[string]any); ok {
 					delete(m, "sentVersion")
 				}
-				want := js(canon(ea))
+				want := jsFull(canon(ea))
 				got := gotRes
 				if st.Op == "SMEnter" {
 					var ga any
 					must(json.Unmarshal([]byte(gotRes), &ga))
 					// tuples are ordered on both sides here
-					want, got = js(ea), js(ga)
+					want, got = jsFull(ea), jsFull(ga)
 				}
 				if want != got {
 					rn.nMismatch++
@@ -1177,7 +1400,7 @@ func (rn *runner) runBehaviour(b behaviour) {
 					"vers": []any{prevK.C.Version, prevK.V.Version, prevK.N.Version}}))
 				after := canon(toAny(M{"C": absView(w, &k.C), "V": absView(w, &k.V), "N": absView(w, &k.N),
 					"vers": []any{k.C.Version, k.V.Version, k.N.Version}}))
-				if js(before) != js(after) || stores.nPoints() != pointsBefore {
+				if jsFull(before) != jsFull(after) || stores.nPoints() != pointsBefore {
 					var d []string
 					diff("", before, after, &d)
 					vs = append(vs, viol{"C05", "InvalidIsInert", "Vote", "changed:" + cls,
@@ -1204,6 +1427,10 @@ func (rn *runner) runBehaviour(b behaviour) {
 			keepCommitted := o.committed
 			r = newRig(w, stores)
 			o = newOracle(w)
+			// durable position at the moment of the crash
+			if vh, vr, chh, cr, err := stores.cur.ms.NetworkHeightRound(context.Background()); err == nil {
+				o.lastNHR, o.haveNHR = [4]uint64{vh, uint64(vr), chh, uint64(cr)}, true
+			}
 			// what had been durably committed stays the reference for C04/C10
 			ctx := context.Background()
 			for h := range keepCommitted {
@@ -1219,7 +1446,7 @@ func (rn *runner) runBehaviour(b behaviour) {
 			must(json.Unmarshal(st.Exp, &ea))
 			want := canon(ea)
 			got := canon(toAny(M{"down": true, "st": r.absStores()}))
-			if js(want) != js(got) {
+			if jsFull(want) != jsFull(got) {
 				var d []string
 				diff("", want, got, &d)
 				rn.nMismatch++
@@ -1239,17 +1466,110 @@ func (rn *runner) runBehaviour(b behaviour) {
 				delete(sm, "hc")
 			}
 		}
-		if js(want) != js(got) {
+		if jsFull(want) != jsFull(got) {
 			var d []string
 			diff("", want, got, &d)
 			rn.nMismatch++
 			rn.out.Emit(vc.M{"kind": "mismatch", "beh": b.ID, "step": i, "op": st.Op, "args": st.Args, "diff": d})
 			return
 		}
-		rn.stateKeys[js(got)] = struct{}{}
+		rn.stateKeys[jsFull(got)] = struct{}{}
 		rn.trace.Emit(vc.M{"beh": b.ID, "step": i, "op": st.Op, "res": gotRes, "st": got})
+		if prevK != nil && k.NilVoted != nil && (prevK.NilVoted == nil || prevK.NilVoted.Round != k.NilVoted.Round || prevK.NilVoted.Height != k.NilVoted.Height) {
+			pendingNil = append(pendingNil, k.NilVoted.Clone())
+		}
+		if st.Op == "Restart" || st.Op == "Boot" {
+			smC, gsC = newConsumer("StateMachine"), newConsumer("Gossip")
+			pendingNil = nil
+		}
 		prevK = k
 	}
+
+	// ---- inputs have stopped: let both consumers read until nothing is offered, then they must be current (C11)
+	if !alive || prevK == nil || os.Getenv("VERIF_DRAIN") == "0" {
+		return
+	}
+	k := prevK
+	var cv []viol
+	for n := 0; n < 64 && !(k.SMOut.None && k.GSOut.None); n++ {
+		select {
+		case v := <-r.smViewOut:
+			if v.VRV.Height != 0 {
+				vv := v.VRV
+				smC.receive(w, &vv, true, "Drain", &cv)
+			}
+		case u := <-r.gossipOut:
+			gsC.receive(w, u.Committing, true, "Drain", &cv)
+			gsC.receive(w, u.Voting, true, "Drain", &cv)
+			gsC.receive(w, u.NextRound, true, "Drain", &cv)
+			if u.NilVotedRound != nil {
+				rest := pendingNil[:0]
+				for _, pn := range pendingNil {
+					if pn.Height == u.NilVotedRound.Height && pn.Round == u.NilVotedRound.Round &&
+						subsetSigners(signerSets(w, pn.PrecommitProofs), signerSets(w, u.NilVotedRound.PrecommitProofs)) {
+						continue
+					}
+					rest = append(rest, pn)
+				}
+				pendingNil = rest
+			}
+		case <-time.After(2 * time.Second):
+			rn.out.Emit(vc.M{"kind": "inconclusive", "beh": b.ID, "step": len(b.Steps), "why": "kernel reports pending output but nothing arrives on the channels"})
+			return
+		}
+		var ok bool
+		k, ok = r.sync()
+		if !ok {
+			return
+		}
+	}
+	if !(k.SMOut.None && k.GSOut.None) {
+		rn.out.Emit(vc.M{"kind": "inconclusive", "beh": b.ID, "step": len(b.Steps), "why": "outputs still pending after 64 reads"})
+		return
+	}
+	gsC.current(w, &k.V, "Quiescence", "voting", &cv)
+	gsC.current(w, &k.N, "Quiescence", "next-round", &cv)
+	if k.C.Height > 0 {
+		gsC.current(w, &k.C, "Quiescence", "committing", &cv)
+	}
+	for _, pn := range pendingNil {
+		cv = append(cv, viol{"C11", "ExitVotesDeliveredBeforeDrop", "Quiescence", "nilVotedNeverSent",
+			fmt.Sprintf("round %d/%d ended in a nil commit but its final precommits never reached gossip", pn.Height, pn.Round)})
+	}
+	if k.SMReH > 0 {
+		// the state machine is entitled to the view of the round it is in, when the mirror still has it
+		for _, e := range []struct {
+			n string
+			v *tmconsensus.VersionedRoundView
+		}{{"voting", &k.V}, {"committing", &k.C}, {"next-round", &k.N}} {
+			if e.v.Height == k.SMReH && e.v.Round == k.SMReR {
+				smC.current(w, e.v, "Quiescence", e.n, &cv)
+			}
+		}
+	}
+	for _, x := range cv {
+		rn.emitViol(b.ID, len(b.Steps), "Quiescence", x)
+	}
+}
+
+func classOfPanic(msg string) string {
+	m := msg
+	for _, cut := range []string{": ", " ("} {
+		_ = cut
+	}
+	// keep the text, drop digits and hex so that the class is stable
+	var b strings.Builder
+	for _, c := range m {
+		if c >= '0' && c <= '9' {
+			continue
+		}
+		b.WriteRune(c)
+	}
+	out := b.String()
+	if len(out) > 100 {
+		out = out[:100]
+	}
+	return out
 }
 
 func must(err error) {
